@@ -17,6 +17,7 @@ Conventions (see Model/Heap.lean):
 """
 import ast
 import builtins
+import copy as _copy
 import importlib
 import inspect
 import pathlib
@@ -163,6 +164,8 @@ class Walker:
             return
         if f_obj is None:
             raise Untranslatable("cannot resolve call target " + fname)
+        if f_obj in (_copy.copy, _copy.deepcopy):
+            return  # a copy reads its argument
         if getattr(f_obj, "__module__", "") == "builtins" or f_obj in (vars(builtins).values()):
             if fname in PURE_BUILTINS or fname in FRESH_BUILTINS:
                 return
@@ -361,6 +364,8 @@ def fresh_source(value, mod, name):
             return name(dotted(f.value))
         if dotted(f) == "cls":
             return "<new>"
+        if resolve(mod, f) in (_copy.copy, _copy.deepcopy) and len(value.args) == 1 and dotted(value.args[0]) is not None:
+            return name(dotted(value.args[0]))
         obj = resolve(mod, f)
         if obj in (dict, list, set) or (inspect.isclass(obj) and not issubclass(obj, BaseException)):
             return "<new>"
